@@ -985,6 +985,13 @@ func (fr *frame) typeAssert(st *State, x *ssa.TypeAssert) Val {
 	if _, isIface := x.AssertedType.Underlying().(*types.Interface); isIface {
 		name := c.DeclareUF(fmt.Sprintf("implements_%d", u.E.typeID(x.AssertedType)), []Sort{BV(32)}, SBool)
 		okT = c.And(c.Ne(iv.Tag, c.BVu(0, 32)), c.App(name, SBool, iv.Tag))
+		// facts from the type checker for every concrete type seen so far
+		for id, ct := range u.E.typeByID {
+			if _, isI := ct.Underlying().(*types.Interface); isI {
+				continue
+			}
+			u.assumeGlobal(c.Eq(c.App(name, SBool, c.BVu(uint64(id), 32)), c.Bool(types.Implements(ct, x.AssertedType.Underlying().(*types.Interface)))))
+		}
 		if it := x.AssertedType.Underlying().(*types.Interface); it.NumMethods() == 0 {
 			okT = c.Ne(iv.Tag, c.BVu(0, 32))
 		}
